@@ -26,7 +26,7 @@ try:
     readme = open(os.path.join(src, "README.txt")).read()
     m = None
     for ln in readme.splitlines():
-        if ("gcc" in ln or "demo.sh" in ln) and "demo" in ln:
+        if ("gcc " in ln or " cc " in (" " + ln) or "clang " in ln or "demo.sh" in ln or "python3 " in ln) and "demo" in ln:
             m = ln.strip()
             break
     if m is None:
